@@ -274,12 +274,20 @@ pub fn build_shape(kinds: &[Kind], lim: &Limits, ch: &mut dyn Chooser) -> Shape 
                         validity[i] = ch.choose(2) == 0;
                     }
                 }
-                let np: Vec<bool> = (0..n).map(|i| pushed[i] || !validity[i]).collect();
+                // a null struct either pushes its nulls down into the children (what StructStructuralEncoder does) or
+                // leaves them alone (plain RepDefBuilder use: e.g. nullable struct -> struct added with add_no_null ->
+                // list -> items): then whatever sits below a null struct is "don't care" and stays arbitrary-valid
+                let own_null = (0..n).any(|i| !validity[i] && !pushed[i]);
+                let push = if own_null { ch.choose(2) == 0 } else { true };
+                let np: Vec<bool> = (0..n).map(|i| pushed[i] || (push && !validity[i])).collect();
+                let nd: Vec<bool> = (0..n).map(|i| dead[i] || (!push && !validity[i] && !pushed[i])).collect();
                 pushed = np;
-                // dead stays
+                dead = nd;
             }
             Kind::Fsl => {
-                dim = 1 + ch.choose(lim.max_dim);
+                // the element limit applies to FSL children as well (dimension 1 is always allowed)
+                let max_dim = lim.max_dim.min((lim.max_elems / n.max(1)).max(1));
+                dim = 1 + ch.choose(max_dim);
                 for i in 0..n {
                     if pushed[i] {
                         validity[i] = false;
